@@ -220,29 +220,38 @@ def run(ctx):
                 ctx.violation(f'all-workers-fail-{i}-silent.json', dict(argv=argv, result=result, stream_len=len(ups)), f'C12: 40 entries could not be copied but neither an error update nor an error return ({driver}, {updater})')
         # ---- the provided ChannelUpdater under REAL parallelism (no supervisor: its bookkeeping is a few atomic operations with no
         # system call in between, so only free-running threads can interleave there): totals exact, never above 100 %
-        for i in range(14 if ctx.quick else 60):
-            shutil.rmtree(root + '/S', ignore_errors=True); shutil.rmtree(root + '/D', ignore_errors=True)
-            os.makedirs(root + '/S')
-            lens = [4096 * 400, 4096 * 300, 4096 * 500, 4096 * 272]
-            for k, ln in enumerate(lens):
-                with open(f'{root}/S/f{k}', 'wb') as fh: fh.write(os.urandom(ln))
-            total = sum(lens)
-            driver = ['parblock', 'parfile'][i % 2]
-            argv = ['--driver', driver, '--workers', str([8, 16, 32][i % 3]), '--block-size', '4096', '--updater', 'channel', '--', 'S', 'D']
+        shutil.rmtree(root + '/S', ignore_errors=True); os.makedirs(root + '/S')
+        lens = [4096 * 3000, 4096 * 3000, 4096 * 3000, 4096 * 2720]      # tens of thousands of updates per run: the window is a few instructions wide
+        for k, ln in enumerate(lens):
+            with open(f'{root}/S/f{k}', 'wb') as fh: fh.write(os.urandom(ln))
+        os.sync()       # sources written back and allocated: freshly written (delayed-allocation) files copy along a slower path on which the workers hardly overlap
+        total = sum(lens)
+        outs = []
+        for i in range(-12, 14 if ctx.quick else 60):       # (a dozen unmeasured runs first, then the measured ones back to back: the race window is a few instructions wide and shows only once the process images and the files are warm)
+            shutil.rmtree(root + '/D', ignore_errors=True)
+            driver = ['parblock', 'parfile', 'parfile'][i % 3]
+            argv = ['--driver', driver, '--workers', str([8, 32][i % 2]), '--block-size', '4096', '--updater', 'channel', '--', 'S', 'D']
             r = scen.run_xcp(root, argv, timeout=120, binary=probe, trace=False)
+            if i >= 0:
+                outs.append((i, driver, argv, r))
+        for i, driver, argv, r in outs:
             ups, result, closed = parse_stream(r.stdout_full if hasattr(r, 'stdout_full') else r.stdout)
-            m = core.ask(core.MODEL, [f"updates 4096 | {' '.join(ups)}"])[0]
-            kv = dict(t.split('=') for t in m.split()[1:]) if m.startswith('ok') else {}
             ctx.count(f'free_running_channel.{driver}.{result}'); ctx.case(('free-running-channel', i, driver), True)
+            copied = sum(int(u[1:]) for u in ups if u.startswith('c')); sizes = sum(int(u[1:]) for u in ups if u.startswith('s'))
             bad = None
-            if result != 'ok' or not closed or not kv:
-                bad = f'free-running copy failed or the stream is unreadable: result {result}, closed {closed}, monitor {m[:80]}'
-            elif kv['prefix'] != 'true' or int(kv['copied']) > total:
-                bad = f"more bytes reported copied ({kv['copied']}) than announced/exist ({total})"
-            elif int(kv['size']) != total:
-                bad = f"announced {kv['size']} differs from the files' total {total}"
+            if result != 'ok' or not closed:
+                bad = f'free-running copy failed or the channel did not close: result {result}, closed {closed}'
+            elif copied > total:
+                bad = f'more bytes reported copied ({copied}) than announced/exist ({total})'
+            elif sizes != total:
+                bad = f"announced {sizes} differs from the files' total {total}"
+            elif i < 3:
+                m = core.ask(core.MODEL, [f"updates 4096 | {' '.join(ups)}"])[0]      # the full prefix-by-prefix monitor on three of the streams
+                kv = dict(t.split('=') for t in m.split()[1:]) if m.startswith('ok') else {}
+                if not kv or kv['prefix'] != 'true':
+                    bad = f'the monitor rejects the stream: {m[:80]}'
             if bad:
-                ctx.violation(f'free-running-{i}.json', dict(argv=argv, lens=lens, stream_len=len(ups), monitor=m), f'C12: {bad} ({driver}, ChannelUpdater, 8 free-running workers)')
+                ctx.violation(f'free-running-{i}.json', dict(argv=argv, lens=lens, stream_len=len(ups)), f'C12: {bad} ({driver}, ChannelUpdater, free-running workers)')
         # ---- a genuinely short copy_file_range on a block that is NOT the last of its file (parblock): the retry must ask for the
         # remainder only, and the block's Copied update must be the block's length — never more than was announced
         for i in range(6 if ctx.quick else 40):
